@@ -4,6 +4,7 @@ import (
 	"context"
 	"errors"
 	"fmt"
+	"reflect"
 	"sort"
 	"sync"
 	"sync/atomic"
@@ -15,6 +16,7 @@ import (
 	ddb1 "github.com/aws/aws-sdk-go/service/dynamodb"
 	v1c "github.com/truora/minidyn/aws-v1/client"
 	v2c "github.com/truora/minidyn/aws-v2/client"
+	itypes "github.com/truora/minidyn/types"
 
 	"verif/drv"
 	"verif/ev"
@@ -101,6 +103,107 @@ func mutsV1(a *ddb1.AttributeValue, out *[]mutation) {
 		}
 		*out = append(*out, mutation{"nested map entry added", func() { a.M["zzadded"] = &ddb1.AttributeValue{S: aws1.String("MUTATED")} }})
 	}
+}
+
+// libItemsInChain walks the error chain (Unwrap() error and Unwrap() []error) and returns the
+// items, in the library's internal representation, that the errors of the chain carry.
+func libItemsInChain(err error) []map[string]*itypes.Item {
+	var out []map[string]*itypes.Item
+	seen := map[error]bool{}
+	var walk func(e error)
+	walk = func(e error) {
+		if e == nil {
+			return
+		}
+		if reflect.TypeOf(e).Comparable() {
+			if seen[e] {
+				return
+			}
+			seen[e] = true
+		}
+		if x, ok := e.(*itypes.ConditionalCheckFailedException); ok && x.Item != nil {
+			out = append(out, x.Item)
+		}
+		switch u := e.(type) {
+		case interface{ Unwrap() error }:
+			walk(u.Unwrap())
+		case interface{ Unwrap() []error }:
+			for _, c := range u.Unwrap() {
+				walk(c)
+			}
+		}
+	}
+	walk(err)
+	return out
+}
+
+// mutsLibItem enumerates the mutable locations of an item in the library's own representation.
+func mutsLibItem(m map[string]*itypes.Item, out *[]mutation) {
+	keys := make([]string, 0, len(m))
+	for k := range m {
+		keys = append(keys, k)
+	}
+	sort.Strings(keys)
+	var one func(a *itypes.Item, where string)
+	one = func(a *itypes.Item, where string) {
+		if a == nil {
+			return
+		}
+		switch {
+		case a.S != nil:
+			*out = append(*out, mutation{"library item (error chain): string behind pointer" + where, func() { *a.S = "MUTATED" }})
+		case a.N != nil:
+			*out = append(*out, mutation{"library item (error chain): number behind pointer" + where, func() { *a.N = "424242" }})
+		case a.BOOL != nil:
+			*out = append(*out, mutation{"library item (error chain): bool behind pointer" + where, func() { *a.BOOL = !*a.BOOL }})
+		case a.B != nil:
+			if len(a.B) > 0 {
+				*out = append(*out, mutation{"library item (error chain): byte of B" + where, func() { a.B[0] ^= 0xff }})
+			}
+		case a.L != nil:
+			for i := range a.L {
+				one(a.L[i], where+" in list")
+			}
+			if len(a.L) > 0 {
+				*out = append(*out, mutation{"library item (error chain): list element replaced" + where, func() { m := "MUTATED"; a.L[0] = &itypes.Item{S: &m} }})
+			}
+		case a.M != nil:
+			for _, k := range sortedKeys(a.M) {
+				one(a.M[k], where+" in map")
+			}
+			*out = append(*out, mutation{"library item (error chain): nested map entry added" + where, func() { m := "MUTATED"; a.M["zzadded"] = &itypes.Item{S: &m} }})
+		case a.SS != nil:
+			if len(a.SS) > 0 && a.SS[0] != nil {
+				*out = append(*out, mutation{"library item (error chain): set member behind pointer" + where, func() { *a.SS[0] = "MUTATED" }})
+			}
+		case a.NS != nil:
+			if len(a.NS) > 0 && a.NS[0] != nil {
+				*out = append(*out, mutation{"library item (error chain): set member behind pointer" + where, func() { *a.NS[0] = "424242" }})
+			}
+		case a.BS != nil:
+			if len(a.BS) > 0 && len(a.BS[0]) > 0 {
+				*out = append(*out, mutation{"library item (error chain): byte of BS member" + where, func() { a.BS[0][0] ^= 0xff }})
+			}
+		}
+	}
+	for _, k := range keys {
+		k := k
+		one(m[k], "")
+		if k != "h" {
+			*out = append(*out, mutation{"library item (error chain): map entry replaced", func() { x := "MUTATED"; m[k] = &itypes.Item{S: &x} }})
+			*out = append(*out, mutation{"library item (error chain): map entry deleted", func() { delete(m, k) }})
+		}
+	}
+	*out = append(*out, mutation{"library item (error chain): map entry added", func() { x := "MUTATED"; m["zzadded"] = &itypes.Item{S: &x} }})
+}
+
+func sortedKeys(m map[string]*itypes.Item) []string {
+	ks := make([]string, 0, len(m))
+	for k := range m {
+		ks = append(ks, k)
+	}
+	sort.Strings(ks)
+	return ks
 }
 
 func mutsV2Item(m map[string]types2.AttributeValue, out *[]mutation) {
@@ -339,6 +442,14 @@ func c14V2() c14sdk {
 					return nil, nil, nil, nil, false
 				}
 				held = ccf.Item
+				// whatever else the returned error gives access to: every error of its chain that carries
+				// an item in the library's own representation is caller-reachable memory too
+				var muts []mutation
+				mutsV2Item(held, &muts)
+				for _, li := range libItemsInChain(err) {
+					mutsLibItem(li, &muts)
+				}
+				return muts, readBack, func() val.Item { return drv.ItemFromV2(held) }, laterWrite, true
 			}
 		}
 		var muts []mutation
